@@ -142,12 +142,17 @@ def handleRGBuild (req : Json) : Except String Json := do
 structure Call where
   iters : Nat
   pots : CliqueVec Float
+  /-- `obj.damping` at the time of the call, when it differs from the request-level value -/
+  damping : Option Float := none
 
 def decCalls (req : Json) : Except String (List Call) := do
   (← (← req.getObjVal? "calls").getArr?).toList.mapM (fun c => do
     let iters ← (← c.getObjVal? "iters").getNat?
     let pots : CliqueVec Float ← decCliqueVec (← c.getObjVal? "pots")
-    pure ⟨iters, pots⟩)
+    let damping : Option Float ← match optField c "damping" with
+      | some v => if v.isNull then pure none else (do let d : Float ← Codec.dec v; pure (some d))
+      | none => pure none
+    pure ⟨iters, pots, damping⟩)
 
 def encMsgs (m : RG.Msgs Float) : Json :=
   .arr (m.map (fun (e, f) => Json.mkObj [("from", encList e.1), ("to", encList e.2), ("dom", encDom f.dom),
@@ -222,7 +227,7 @@ def handleHPS (req : Json) : Except String Json := do
   for c in calls do
     if !(prePots g c.pots) then throw "raise KeyError"
     if !(preHps c.iters) then throw "raise UnboundLocalError"
-    let (mu, msgs', sweeps) := hps dom g c0 c.pots total c.iters rho conv msgs
+    let (mu, msgs', sweeps) := hps dom g c0 c.pots total c.iters (c.damping.getD rho) conv msgs
     msgs := msgs'
     let pot := potOf dom g c.pots
     let dual := dualValue g pot total msgs
